@@ -7,8 +7,8 @@ elements a table has already contributed survive its dependencies. -/
 namespace EupsModel.Setup
 
 def Present (cfg : Cfg) (Y : Name → Prop) (e : Env) : Prop :=
-  ∀ n v, ¬ Y n → e.rec? n = some v → ∀ var rel app,
-    Act.prepend var (.own rel) app ∈ tableOf cfg (n, v) → Elem.own (n, v) rel ∈ e.pathOf var
+  ∀ n v, ¬ Y n → e.rec? n = some v → ∀ var vals app rel,
+    Act.prepend var vals app ∈ tableOf cfg (n, v) → Val.own rel ∈ vals → Elem.own (n, v) rel ∈ e.pathOf var
 
 /-- an own element of `e` is still in `e'` unless its product has no record there -/
 def Kept (e e' : Env) : Prop :=
@@ -27,22 +27,22 @@ theorem Kept.trans {a b c : Env} (h1 : Kept a b) (h2 : Kept b c) (hs : Sub c b) 
 
 theorem present_of_kept {cfg : Cfg} {Y : Name → Prop} {e e' : Env} (hp : Present cfg Y e) (hs : Sub e' e)
     (hk : Kept e e') : Present cfg Y e' := by
-  intro n v hy hr var rel app hline
-  rcases hk var (n, v) rel (hp n v hy (hs.recs n v hr) var rel app hline) with h | h
+  intro n v hy hr var vals app rel hline hval
+  rcases hk var (n, v) rel (hp n v hy (hs.recs n v hr) var vals app rel hline hval) with h | h
   · exact h
   · rw [hr] at h; cases h
 
-theorem mem_addPath_of_mem (e : Env) (var var2 : Str) (x y : Elem) (b : Bool) (h : y ∈ e.pathOf var2) :
-    y ∈ (e.addPath var x b).pathOf var2 := by
+theorem mem_addPath_of_mem (e : Env) (var var2 : Str) (xs : List Elem) (y : Elem) (b : Bool) (h : y ∈ e.pathOf var2) :
+    y ∈ (e.addPath var xs b).pathOf var2 := by
   by_cases hv : var2 = var
-  · subst hv; exact (mem_pathOf_addPath_same e var2 x y b).2 (Or.inr h)
-  · rw [pathOf_addPath_other e var var2 x b hv]; exact h
+  · subst hv; exact (mem_pathOf_addPath_same e var2 xs y b).2 (Or.inr h)
+  · rw [pathOf_addPath_other e var var2 xs b hv]; exact h
 
-theorem mem_removePath_of_mem (e : Env) (var var2 : Str) (x y : Elem) (h : y ∈ e.pathOf var2) (hne : y ≠ x) :
-    y ∈ (e.removePath var x).pathOf var2 := by
+theorem mem_removePath_of_mem (e : Env) (var var2 : Str) (xs : List Elem) (y : Elem) (h : y ∈ e.pathOf var2)
+    (hne : y ∉ xs) : y ∈ (e.removePath var xs).pathOf var2 := by
   by_cases hv : var2 = var
-  · subst hv; exact (mem_pathOf_removePath_same e var2 x y).2 ⟨h, hne⟩
-  · rw [pathOf_removePath_other e var var2 x hv]; exact h
+  · subst hv; exact (mem_pathOf_removePath_same e var2 xs y).2 ⟨h, hne⟩
+  · rw [pathOf_removePath_other e var var2 xs hv]; exact h
 
 theorem pathOf_apply_set (fwd : Bool) (p : Prod) (v : Str) (val : Val) (s : St) (var : Str) :
     ((Act.set v val).apply fwd p s).env.pathOf var = s.env.pathOf var := by cases fwd <;> rfl
@@ -57,7 +57,7 @@ theorem mem_apply_true_of_mem (p : Prod) (a : Act) (s : St) (var : Str) (y : Ele
   | prepend v val app => exact mem_addPath_of_mem s.env v var _ y app h
   | set v val => rw [pathOf_apply_set]; exact h
   | alias k v => rw [pathOf_apply_alias]; exact h
-  | dep n o j v x => exact h
+  | dep n o j v x t => exact h
 
 /-- an own element of another product survives any action done for `p` -/
 theorem mem_apply_of_mem_other (fwd : Bool) (p : Prod) (a : Act) (s : St) (var : Str) (q : Prod) (rel : Str)
@@ -66,14 +66,16 @@ theorem mem_apply_of_mem_other (fwd : Bool) (p : Prod) (a : Act) (s : St) (var :
   | true => exact mem_apply_true_of_mem p a s var _ h
   | false =>
     cases a with
-    | prepend v val app =>
+    | prepend v vals app =>
       refine mem_removePath_of_mem s.env v var _ _ h ?_
+      intro hm
+      obtain ⟨val, _, he⟩ := List.mem_map.1 hm
       cases val with
-      | own r => simp [Val.elem]; intro e; exact absurd e hq
-      | lit t => simp [Val.elem]
+      | own r => simp [Val.elem] at he; exact hq he.1.symm
+      | lit t => simp [Val.elem] at he
     | set v val => rw [pathOf_apply_set]; exact h
     | alias k v => rw [pathOf_apply_alias]; exact h
-    | dep n o j v x => exact h
+    | dep n o j v x t => exact h
 
 /-! ### unsetup direction: `Kept` -/
 
@@ -92,8 +94,8 @@ theorem acts_false_kept (cfg : Cfg) (rec : Rec) (hun : UnSpec cfg rec) (hrec : U
   | nil => intro s s' _ _ h; simp [acts] at h; subst h; exact Kept.refl _
   | cons a rest ih =>
     intro s s' hw hr h
-    by_cases hdep : ∃ n o j v x, a = .dep n o j v x
-    · obtain ⟨n, o, j, v, x, rfl⟩ := hdep
+    by_cases hdep : ∃ n o j v x t, a = .dep n o j v x t
+    · obtain ⟨n, o, j, v, x, t, rfl⟩ := hdep
       simp only [acts] at h
       split at h
       · exact ih s s' hw hr h
@@ -114,7 +116,7 @@ theorem acts_false_kept (cfg : Cfg) (rec : Rec) (hun : UnSpec cfg rec) (hrec : U
         · rename_i s1 hr1
           simp only [Bool.false_and, Bool.false_eq_true, if_false] at h
           exact ih ⟨s.env, s.aliases, s.unaliased, s1.already⟩ s' hw hr h
-    · have hnd : ∀ n o j v x, a ≠ .dep n o j v x := fun n o j v x e => hdep ⟨n, o, j, v, x, e⟩
+    · have hnd : ∀ n o j v x t, a ≠ .dep n o j v x t := fun n o j v x t e => hdep ⟨n, o, j, v, x, t, e⟩
       rw [acts_cons_nondep rec cfg false depth noRec vro d a rest s hnd] at h
       obtain ⟨hs1, hrec1, _, _⟩ := apply_false_spec d.prod a s
       have hw1 := hw.of_sub hs1
@@ -157,8 +159,8 @@ theorem setup_keepHigher (cfg : Cfg) (rank : Name → Nat) (hdag : NameDag cfg.d
     ∀ fuel, KeepHigher cfg rank (setup cfg fuel) := by
   intro fuel fwd depth noRec vro n ver vexpr s s' ha h var p rel hp hm
   have hcl : ClosedAt cfg (fun _ m => rank m ≤ rank n) := by
-    intro d hd k hS _ g n' o j v x hg
-    have := hdag d hd g n' o j v x hg
+    intro d hd k hS _ g n' o j v x t hg
+    have := hdag d hd g n' o j v x t hg
     omega
   have hP : SubjInv cfg (fun _ m => rank m ≤ rank n) (fun e => Elem.own p rel ∈ e.pathOf var) := by
     refine ⟨?_, fun _ _ _ _ _ _ hp => hp, fun _ _ _ _ _ hp => hp⟩
@@ -182,46 +184,46 @@ def PresSpec (cfg : Cfg) (rank : Name → Nat) (rec : Rec) : Prop :=
 
 theorem present_apply_true (cfg : Cfg) (Y : Name → Prop) (p : Prod) (a : Act) (s : St) (h : Present cfg Y s.env) :
     Present cfg Y (a.apply true p s).env := by
-  intro n v hy hr var rel app hline
+  intro n v hy hr var vals app rel hline hval
   rw [apply_rec?] at hr
-  exact mem_apply_true_of_mem p a s var _ (h n v hy hr var rel app hline)
+  exact mem_apply_true_of_mem p a s var _ (h n v hy hr var vals app rel hline hval)
 
 theorem acts_true_present (cfg : Cfg) (rank : Name → Nat) (rec : Rec) (hrec : RecOK cfg rank rec)
     (hkh : KeepHigher cfg rank rec) (hps : PresSpec cfg rank rec) (Y : Name → Prop) (depth : Nat) (noRec : Bool)
     (vro : List VroEnt) (d : Decl) (hY : ∀ y, Y y → rank d.name < rank y) (l : List Act)
-    (hl : ∀ n o j v x, Act.dep n o j v x ∈ l → rank n < rank d.name) :
+    (hl : ∀ n o j v x t, Act.dep n o j v x t ∈ l → rank n < rank d.name) :
     ∀ s s', AlreadyOK cfg.db s.already → WellOwned cfg s.env → NoResidue Empty s.env →
       s.env.rec? d.name = some d.ver → Present cfg (fun m => Y m ∨ m = d.name) s.env →
       (∀ a ∈ l, a ∈ tableOf cfg d.prod) →
       acts rec cfg true depth noRec vro d l s = .ok s' →
       Present cfg (fun m => Y m ∨ m = d.name) s'.env ∧
       (∀ var rel, Elem.own d.prod rel ∈ s.env.pathOf var → Elem.own d.prod rel ∈ s'.env.pathOf var) ∧
-      (∀ var rel app, Act.prepend var (.own rel) app ∈ l → Elem.own d.prod rel ∈ s'.env.pathOf var) := by
+      (∀ var vals app rel, Act.prepend var vals app ∈ l → Val.own rel ∈ vals → Elem.own d.prod rel ∈ s'.env.pathOf var) := by
   induction l with
   | nil =>
     intro s s' _ _ _ _ hp _ h
     simp [acts] at h; subst h
     exact ⟨hp, fun _ _ h => h, by simp⟩
   | cons a rest ih =>
-    have hl' : ∀ n o j v x, Act.dep n o j v x ∈ rest → rank n < rank d.name :=
-      fun n o j v x hm => hl n o j v x (List.mem_cons_of_mem _ hm)
+    have hl' : ∀ n o j v x t, Act.dep n o j v x t ∈ rest → rank n < rank d.name :=
+      fun n o j v x t hm => hl n o j v x t (List.mem_cons_of_mem _ hm)
     intro s s' ha hw hn hr hp hc h
     have hc' : ∀ a ∈ rest, a ∈ tableOf cfg d.prod := fun a hm => hc a (List.mem_cons_of_mem _ hm)
-    by_cases hdep : ∃ n o j v x, a = .dep n o j v x
-    · obtain ⟨n, o, j, v, x, rfl⟩ := hdep
-      have hnr : rank n < rank d.name := hl n o j v x (by simp)
+    by_cases hdep : ∃ n o j v x t, a = .dep n o j v x t
+    · obtain ⟨n, o, j, v, x, t, rfl⟩ := hdep
+      have hnr : rank n < rank d.name := hl n o j v x t (by simp)
       have tail : ∀ s1 : St, AlreadyOK cfg.db s1.already → WellOwned cfg s1.env → NoResidue Empty s1.env →
           s1.env.rec? d.name = some d.ver → Present cfg (fun m => Y m ∨ m = d.name) s1.env →
           (∀ var rel, Elem.own d.prod rel ∈ s.env.pathOf var → Elem.own d.prod rel ∈ s1.env.pathOf var) →
           acts rec cfg true depth noRec vro d rest s1 = .ok s' →
           Present cfg (fun m => Y m ∨ m = d.name) s'.env ∧
           (∀ var rel, Elem.own d.prod rel ∈ s.env.pathOf var → Elem.own d.prod rel ∈ s'.env.pathOf var) ∧
-          (∀ var rel app, Act.prepend var (.own rel) app ∈ Act.dep n o j v x :: rest →
+          (∀ var vals app rel, Act.prepend var vals app ∈ Act.dep n o j v x t :: rest → Val.own rel ∈ vals →
             Elem.own d.prod rel ∈ s'.env.pathOf var) := by
         intro s1 h1 hw1 hn1 hr1 hp1 hk1 hacts
         obtain ⟨hp2, hk2, ha2⟩ := ih hl' s1 s' h1 hw1 hn1 hr1 hp1 hc' hacts
         exact ⟨hp2, fun var rel hm => hk2 var rel (hk1 var rel hm),
-               fun var rel app hm => ha2 var rel app (by simpa using hm)⟩
+               fun var vals app rel hm hval => ha2 var vals app rel (by simpa using hm) hval⟩
       simp only [acts] at h
       split at h
       · exact tail s ha hw hn hr hp (fun _ _ h => h) h
@@ -247,25 +249,26 @@ theorem acts_true_present (cfg : Cfg) (rank : Name → Nat) (rec : Rec) (hrec : 
           split at h
           · cases h
           · exact tail ⟨s.env, s.aliases, s.unaliased, s1.already⟩ h1 hw hn hr hp (fun _ _ h => h) h
-    · have hnd : ∀ n o j v x, a ≠ .dep n o j v x := fun n o j v x e => hdep ⟨n, o, j, v, x, e⟩
+    · have hnd : ∀ n o j v x t, a ≠ .dep n o j v x t := fun n o j v x t e => hdep ⟨n, o, j, v, x, t, e⟩
       rw [acts_cons_nondep rec cfg true depth noRec vro d a rest s hnd] at h
       obtain ⟨hn1, hw1⟩ := apply_true_spec cfg d.prod a s (hc a (by simp)) hr hw hn
       obtain ⟨hp2, hk2, ha2⟩ := ih hl' (a.apply true d.prod s) s' (by simpa using ha) hw1 hn1
         (by rw [apply_rec?]; exact hr) (present_apply_true cfg _ d.prod a s hp) hc' h
       refine ⟨hp2, fun var rel hm => hk2 var rel (mem_apply_true_of_mem d.prod a s var _ hm), ?_⟩
-      intro var rel app hm
+      intro var vals app rel hm hval
       simp only [List.mem_cons] at hm
       rcases hm with hm | hm
       · subst hm
-        exact hk2 var rel ((mem_pathOf_addPath_same s.env var _ _ app).2 (Or.inl rfl))
-      · exact ha2 var rel app hm
+        exact hk2 var rel ((mem_pathOf_addPath_same s.env var _ _ app).2
+          (Or.inl (List.mem_map.2 ⟨Val.own rel, hval, rfl⟩)))
+      · exact ha2 var vals app rel hm hval
 
 theorem present_record (cfg : Cfg) (Y : Name → Prop) (d : Decl) (r : Option VroEnt) (s : St) (h : Present cfg Y s.env) :
     Present cfg (fun m => Y m ∨ m = d.name) (record d r s).env := by
-  intro n v hy hr var rel app hline
+  intro n v hy hr var vals app rel hline hval
   have hne : n ≠ d.name := fun e => hy (Or.inr e)
   rw [record_rec?_other d r s n hne] at hr
-  exact h n v (fun hyn => hy (Or.inl hyn)) hr var rel app hline
+  exact h n v (fun hyn => hy (Or.inl hyn)) hr var vals app rel hline hval
 
 theorem install_present (cfg : Cfg) (rank : Name → Nat) (hdag : NameDag cfg.db rank) (rec : Rec)
     (hrec : RecOK cfg rank rec) (hkh : KeepHigher cfg rank rec) (huk : UnKept cfg rec) (hps : PresSpec cfg rank rec)
@@ -285,7 +288,7 @@ theorem install_present (cfg : Cfg) (rank : Name → Nat) (hdag : NameDag cfg.db
     have hr3 : s'.env.rec? d.name = some d.ver := by
       rw [acts_frame cfg rank rec hrec true depth noRec vro d (rank d.name) (d.actions cfg.exact) hdeps s2 s' h2 hacts
         d.name (Nat.le_refl _)]; exact hr2
-    intro n v hy hr var rel app hline
+    intro n v hy hr var vals app rel hline hval
     by_cases hnd : n = d.name
     · subst hnd
       rw [hr3] at hr
@@ -293,8 +296,8 @@ theorem install_present (cfg : Cfg) (rank : Name → Nat) (hdag : NameDag cfg.db
       subst hv
       have : tableOf cfg (d.name, d.ver) = d.actions cfg.exact := htab
       rw [this] at hline
-      exact ha3 var rel app hline
-    · exact hp3 n v (fun h => h.elim hy hnd) hr var rel app hline
+      exact ha3 var vals app rel hline hval
+    · exact hp3 n v (fun h => h.elim hy hnd) hr var vals app rel hline hval
   unfold install at h
   cases hsp : setupProd cfg.db s.env d.name with
   | none =>
